@@ -111,7 +111,6 @@ package ledger
 
 // ---- log_process.go ---------------------------------------------------------------------------------
 
-
 //@ func (lp *logProcessor[INPUT, OUTPUT]) fetchLogWithIK(ctx context.Context, store Store, parameters Parameters[INPUT]) (log *ledger.Log, output *OUTPUT, err error)
 //@   property C13
 //@   ensures err != nil ==> log == nil && output == nil
